@@ -152,6 +152,10 @@ pub struct SimFileInner {
     /// just before it is cut short so that the failing one comes in the middle of something
     pub read_fault: Option<(u64, io::ErrorKind)>,
     pub read_calls: u64,
+    /// the k-th seek (counted over the file's life) fails with this kind, once: at `start_seek`
+    /// (false) or when it completes (true); the position stays where it was
+    pub seek_fault: Option<(u64, io::ErrorKind, bool)>,
+    pub seek_calls: u64,
     /// set by ShortThenError: the next write call fails with this
     pub fail_next_write: Option<io::ErrorKind>,
     /// called before every write lands: the invariant monitor of C03
@@ -178,6 +182,8 @@ impl SimFile {
             eof_at: None,
             read_fault: None,
             read_calls: 0,
+            seek_fault: None,
+            seek_calls: 0,
             fail_next_write: None,
             on_write: None,
         })))
@@ -269,6 +275,15 @@ impl AsyncSeek for SimFile {
         if to < 0 {
             return Err(io::Error::new(io::ErrorKind::InvalidInput, "invalid seek to a negative position"));
         }
+        let call = g.seek_calls;
+        g.seek_calls += 1;
+        if let Some((k, kind, at_complete)) = g.seek_fault {
+            if k == call && !at_complete {
+                g.seek_fault = None;
+                simkit::count("fault:file-seek-error");
+                return Err(kind.into());
+            }
+        }
         g.seek_pending = Some(to as u64);
         Ok(())
     }
@@ -280,6 +295,13 @@ impl AsyncSeek for SimFile {
                 return Poll::Pending;
             }
             g.seek_pending = None;
+            if let Some((k, kind, true)) = g.seek_fault {
+                if k + 1 == g.seek_calls {
+                    g.seek_fault = None;
+                    simkit::count("fault:file-seek-error");
+                    return Poll::Ready(Err(kind.into()));
+                }
+            }
             g.pos = to;
             g.ops.push(FileOp::Seek { to });
             simkit::with(|s| s.event("file-seek", to, 0));
